@@ -19,9 +19,6 @@ import (
 	"math"
 	"sort"
 
-	"github.com/dolthub/go-mysql-server/sql"
-	"github.com/dolthub/go-mysql-server/sql/types"
-
 	"github.com/dolthub/dolt/go/store/pool"
 	"github.com/dolthub/dolt/go/store/prolly/tree"
 	"github.com/dolthub/dolt/go/store/val"
@@ -348,15 +345,9 @@ func IncrementTuple(ctx context.Context, start val.Tuple, n int, desc *val.Tuple
 		// increment the finest precision we can represent on disk (little endian)
 		tb.PutFloat64(n, math.Float64frombits(math.Float64bits(v)+1))
 	case val.DecimalEnc:
-		v, ok := desc.GetDecimal(n, start)
-		if !ok {
-			return nil, false, nil
-		}
-		_, err := sql.DecimalCtx.Add(v, v, types.DecimalFromInt64(1))
-		if err != nil {
-			return nil, false, err
-		}
-		tb.PutDecimal(n, v)
+		// the tuple descriptor does not carry the column's scale, so there is
+		// no exact successor: [key, key+1) would also cover key+0.01
+		return nil, false, nil
 	default:
 		return nil, false, nil
 	}
